@@ -47,6 +47,11 @@ func genROM(seed int64) []byte {
 		rom[0x147], rom[0x148], rom[0x149] = 0x01, 0x00, 0x00
 	case 2:
 		rom[0x147], rom[0x148], rom[0x149] = 0x10, 0x00, 0x03
+		if seed%8 == 6 {
+			// the same controller without the clock chip declared (MBC3+RAM+BATTERY): the program below pokes at the clock
+			// registers all the same, as a program probing for a clock would
+			rom[0x147] = 0x13
+		}
 	}
 	var code []byte
 	emit := func(b ...int) {
@@ -190,6 +195,12 @@ func romList(c *Ctx, tmp string, n int) []string {
 				out = append(out, p)
 			}
 		}
+	}
+	if n >= 16 {
+		// a second, different program on the clock-less MBC3 cartridge (gen-12 is the first)
+		p := filepath.Join(tmp, "gen-12b.gb")
+		os.WriteFile(p, genROM(rng.Int63n(1<<40)&^7|6), 0o644)
+		out = append(out, p)
 	}
 	return out
 }
